@@ -434,10 +434,11 @@ pub fn finish(ctx: Ctx, verif_dir: &str) -> i32 {
         let _ = std::fs::write(path, all.join("\n"));
     }
     let show = std::env::var("FVC_SHOW").ok();
+    let show_max: usize = std::env::var("FVC_SHOW_MAX").ok().and_then(|v| v.parse().ok()).unwrap_or(60);
     let mut shown = 0;
     for (n, v) in new_violations.iter().enumerate() {
         if let Some(f) = &show {
-            if v.key.contains(f.as_str()) && shown < 60 {
+            if v.key.contains(f.as_str()) && shown < show_max {
                 shown += 1;
                 println!("  show {}: {} :: {}", n, v.key, v.detail);
             }
